@@ -1,0 +1,12 @@
+//go:build verif
+// +build verif
+
+package memcache
+
+import "net"
+
+// NewServerConnForVerif lets the external verification harness drive a real
+// ServerConn over an in-memory connection. Only built with the tag "verif".
+func NewServerConnForVerif(conn net.Conn) *ServerConn {
+	return newServerConn(conn)
+}
